@@ -19,7 +19,7 @@ HMatch(hc, dc, hi) ==
             /\ \A i \in 1..4 : CoordMatch(TRUE, hc.f[i], dc.f[i])
             /\ PalKept(hc.pal, dc.pal)
        [] hc.op \in {"SetCSel", "SetNSel"} -> dc.sel = hc.sel % 64
-       [] hc.op = "SetCReg" -> dc.adj = hc.adj /\ dc.incr = hc.incr /\ dc.c = hc.c
+       [] hc.op = "SetCReg" -> dc.adj = hc.adj /\ dc.incr = hc.incr /\ dc.c = NormC(hc.c)
        [] hc.op = "SetNReg" ->
             /\ dc.adj = hc.adj /\ dc.incr = hc.incr
             /\ (IF IsNaN(hc.f[1]) THEN ~IsFinite(dc.f[1])
